@@ -153,6 +153,10 @@ def run(tier, t0):
     ex = PathExplorer(cl, keep=lambda c: True)
     ex.run()
     EQ = 'PartialEq>::eq'
+    _par, up_env = closure_env(prog, cl)
+    # what "the thread that requested the dump" is, whatever local it was bound to on the way: the exception stream's
+    # thread id, else the Breakpad info stream's requesting thread id
+    SELECTOR = "(std::option::Option::or (std::option::Option::map (std::option::Option::as_ref self.exception) (closure minidump_processor::processor::MinidumpInfo::<'a>::into_process_state::{closure#0}::{closure#0})) self.requesting_thread_id)"
     n3 = 0
     writes = []
     for b in sorted(cl.reach):
@@ -167,12 +171,20 @@ def run(tier, t0):
         fs = facts_at(ex, b)
         if not fs:
             res.error('C14.3', 'no path state at the requesting_thread write')
-        for f in fs:
-            sel = [(c, v) for c, v in f if EQ in c and 'Option::or crashing_thread_id self.requesting_thread_id' in c and '(adt std::option::Option::Some id)' in c]
-            skip = [(c, v) for c, v in f if EQ in c and 'self.dump_thread_id' in c and '(adt std::option::Option::Some id)' in c]
-            if not sel or not all(v is True for c, v in sel):
-                res.violation('C14.3', 'C14.3|selector', cl, s.get('line'), 'requesting_thread is written on a path that did not establish crashing_thread_id.or(self.requesting_thread_id) == Some(id): %s' % sorted(f)[:4])
-            if not skip or not all(v is False for c, v in skip):
+        for facts, env_ in ex.states.get(b, ()):
+            sel, skip = [], []
+            for cnd, v in facts:
+                if not (cnd[0] == 'call' and EQ in cnd[1] and len(cnd) == 4 and show(cnd[3]) == '(adt std::option::Option::Some id)'):
+                    continue
+                lhs = show(resolve_upvars(cl, cl.expand(cnd[2]), up_env))
+                if lhs == SELECTOR:
+                    sel.append(v)
+                elif lhs == 'self.dump_thread_id':
+                    skip.append(v)
+            f = sorted((show(cnd)[:120], v) for cnd, v in facts)
+            if not sel or not all(v is True for v in sel):
+                res.violation('C14.3', 'C14.3|selector', cl, s.get('line'), 'requesting_thread is written on a path that did not establish <exception thread id>.or(<breakpad requesting thread id>) == Some(id): %s' % f[:4])
+            if not skip or not all(v is False for v in skip):
                 res.violation('C14.3', 'C14.3|dump-thread', cl, s.get('line'), 'requesting_thread can be written for the dump-writer thread (no dump_thread_id == Some(id) early return on this path)')
     if not writes:
         res.error('C14.3', 'no write of requesting_thread in the mapping closure')
@@ -206,9 +218,15 @@ def run(tier, t0):
                     ctx_defs.append((d['bb'], cl.call_tree(d['term'])))
     for b, tr in ctx_defs:
         n3 += 1
-        fs = facts_at(ex, b)
-        sel_true = fs and all(any(EQ in c and 'crashing_thread_id' in c and v is True for c, v in f) for f in fs)
-        sel_false = fs and all(any(EQ in c and 'crashing_thread_id' in c and v is False for c, v in f) for f in fs)
+        def sel_of(facts):
+            for cnd, v in facts:
+                if cnd[0] == 'call' and EQ in cnd[1] and len(cnd) == 4 and show(cnd[3]) == '(adt std::option::Option::Some id)' \
+                        and show(resolve_upvars(cl, cl.expand(cnd[2]), up_env)) == SELECTOR:
+                    return v
+            return None
+        sts = list(ex.states.get(b, ()))
+        sel_true = bool(sts) and all(sel_of(facts) is True for facts, _e in sts)
+        sel_false = bool(sts) and all(sel_of(facts) is False for facts, _e in sts)
         s_tr = show(tr)
         if sel_true:
             if s_tr != '(std::option::Option::or (std::option::Option::as_deref exception_context) (std::option::Option::as_deref thread_context))':
@@ -410,6 +428,13 @@ def run(tier, t0):
                         res.violation('C14.5', 'C14.5|process_id|linux', body, None, 'without misc info process_id is %s, not linux_proc_status.map(|s| s.pid)' % e[:140])
                 elif e != '(adt std::option::Option::None)':
                     res.violation('C14.5', 'C14.5|process_create_time|none', body, None, 'without misc info process_create_time is %s' % e[:140])
+            elif nm == 'process_create_time' and re.match(r"^\(std::option::Option::and_then \(std::option::Option::as_ref self\.misc_info\) \(closure ([^)]+)\)\)$", e):
+                # the combinator spelling of the same case split: misc_info.as_ref().and_then(|m| m.process_create_time())
+                g = mp.fn(re.match(r"^\(std::option::Option::and_then \(std::option::Option::as_ref self\.misc_info\) \(closure ([^)]+)\)\)$", e).group(1))
+                okc = g is not None and [show(g.expand(t2)) for (_, _, t2) in ret_assigns(g)] in (['(minidump::MinidumpMiscInfo::process_create_time misc_info)'], ['(minidump::MinidumpMiscInfo::process_create_time _2)'])
+                if not okc:
+                    res.violation('C14.5', 'C14.5|process_create_time|combinator', body, None, 'process_create_time is %s, whose closure is not |m| m.process_create_time()' % e[:120])
+                n5 += 1   # stands for the two arms of the if-let spelling
             else:
                 res.violation('C14.5', 'C14.5|%s|unguarded' % nm, body, None, '%s is assigned on a path that does not test for the misc-info stream: %s' % (nm, e[:100]))
     n5 += 1
